@@ -11,11 +11,10 @@
                undo OUR blocks.  It is an executable premise (like [linear_chain_b]);
      [Hheavy]  before the last block of [theirs] is in, our tip is lighter than what the peer announced (otherwise
                Synchronize stops asking);
-     [Hreach]  (Proofs/Sync2.v) the by-height request reaches the frontier: as long as our own height is below the peer's,
-               the lowest block of [theirs] we do not store is at most PARALLEL_BLOCKS_DOWNLOAD + 1 above our own height.
-               It holds whenever the peer's branch, cut at our height + PARALLEL_BLOCKS_DOWNLOAD + 1, is already heavier
-               than our chain (then the node has reorganised to it), and whenever the peer's chain is not higher than
-               ours.  Without it: livelock, Proofs/Sync2Stuck.v.
+     [Hheld]   while it accepts the branch our node holds a block at the height just below the lowest block of [theirs]
+               it does not store yet ([held_height]: its own height or the height of an alternative tip is at least
+               that).  True of every reachable node (Proofs/Sync2Reach.v); this is what lets the by-height request
+               continue above the blocks that were stored as an alternative chain.
    Schedule (the fairness assumption, the one of [sim] with the faithful network): rounds keep being scheduled; in every
    round the peer's latest STATS have arrived, Synchronize runs one iteration, the peer answers EVERY request of it,
    the answers arrive in the order sent and the post-processor drains its buffer before the next iteration. *)
@@ -244,6 +243,8 @@ Definition ent (i : N) : N * N := (hsh i, i).
 (* our node when the frontier is L *)
 Definition nd (L : N) : node := apply_ext' n0 (firstn (N.to_nat L - k0) theirs).
 Definition th (L : N) : N := top_h (nd L).
+(* the highest height at which it holds a block *)
+Definition hd (L : N) : N := held_height (nd L).
 (* the synchronisation state between two rounds *)
 Definition conc (a : astate) : sync :=
   mksync (nd (aL a)) hp cdp (alast a) (await a) (afw a) (map ent (aq a)) [].
@@ -262,11 +263,10 @@ Hypothesis Hheavy : forall j, (j < length theirs)%nat -> top_cd (apply_ext' n0 (
 Hypothesis Hdone : cdp <= top_cd (apply_ext' n0 theirs).
 Hypothesis Hbound : hp + pbd + 2 < two64.
 Hypothesis Hpbd : 1 <= pbd.
-(* the window of the by-height request reaches the frontier (see the header) *)
-Hypothesis Hreach : forall j, (j < length theirs)%nat ->
-  let n := apply_ext' n0 (firstn j theirs) in
-  top_h n < hp -> N.of_nat (k0 + j) <= top_h n + pbd + 1.
-
+(* our node holds a block at the height just below the frontier: the highest height at which it holds a block - its own
+   height or the height of an alternative tip - is at least that (true of every reachable node: Proofs/Sync2Reach.v) *)
+Hypothesis Hheld : forall j, (j <= length theirs)%nat ->
+  N.of_nat (k0 + j) <= held_height (apply_ext' n0 (firstn j theirs)) + 1.
 
 (* ---- the peer's chain ---- *)
 Lemma k0_pos : 1 <= L0.
@@ -401,26 +401,22 @@ Proof.
 Qed.
 
 (* ---- Synchronize ---- *)
-Lemma tick_height_ref s rq L : top_h (sy_node s) = th L -> sy_height s = hp ->
-  let r := a_tick_height hp pbd th L (sy_last s) (sy_wait s) (sy_fwait s) in
+Lemma tick_height_ref s rq L : top_h (sy_node s) = th L -> held_height (sy_node s) = hd L -> sy_height s = hp ->
+  let r := a_tick_height hp pbd th hd L (sy_last s) (sy_wait s) (sy_fwait s) in
   tick_height cfg s rq =
   (set_fwait (set_last s (fst (fst (fst r))) (snd (fst (fst r)))) (snd (fst r)),
    rq ++ match snd r with Some (h, c) => [ReqHeight h c] | None => [] end).
 Proof.
-  destruct s as [n h d l w f q b]. cbn [sy_node sy_height sy_last sy_wait sy_fwait]. intros Ht ->. cbn zeta.
-  unfold tick_height, a_tick_height. cbn [sy_node sy_height sy_last sy_wait sy_fwait]. rewrite Ht.
-  destruct (N.ltb_spec (th L) l) as [Hc1|Hc1]; cbn [andb]; [destruct (N.ltb_spec 20 w) as [Hc2|Hc2]; cbn [negb]|].
-  2:{ cbn [fst snd]. rewrite app_nil_r. reflexivity. }
-  - replace (N.max (th L) (th L)) with (th L) by lia.
-    destruct (N.ltb_spec (th L) hp) as [Hh|Hh]; cbn [fst snd set_last set_fwait sy_node sy_height sy_diff sy_last sy_wait sy_fwait sy_queue sy_buf].
-    + reflexivity.
-    + destruct (N.leb_spec hp (th L)); [|lia].
-      destruct ((f =? 0) && ((if pbd <? hp then hp - pbd + 1 else 1) <=? hp)); cbn [fst snd]; rewrite ?app_nil_r; reflexivity.
-  - replace (N.max l (th L)) with (th L) by lia.
-    destruct (N.ltb_spec (th L) hp) as [Hh|Hh]; cbn [fst snd set_last set_fwait sy_node sy_height sy_diff sy_last sy_wait sy_fwait sy_queue sy_buf].
-    + reflexivity.
-    + destruct (N.leb_spec hp (th L)); [|lia].
-      destruct ((f =? 0) && ((if pbd <? hp then hp - pbd + 1 else 1) <=? hp)); cbn [fst snd]; rewrite ?app_nil_r; reflexivity.
+  destruct s as [n h d l w f q b]. cbn [sy_node sy_height sy_last sy_wait sy_fwait]. intros Ht Hh ->. cbn zeta.
+  unfold tick_height, a_tick_height. cbn [sy_node sy_height sy_last sy_wait sy_fwait]. rewrite Ht, Hh.
+  destruct ((th L <? l) && negb (20 <? w)); cbn [fst snd].
+  { rewrite app_nil_r. reflexivity. }
+  set (base := N.max (if th L <? l then if (hd L <? l) || (hp <=? l) then th L else l else l) (th L)).
+  destruct (base <? hp); cbn [fst snd set_last set_fwait sy_node sy_height sy_diff sy_last sy_wait sy_fwait sy_queue sy_buf].
+  - reflexivity.
+  - destruct (hp <=? th L); cbn [fst snd].
+    + destruct ((f =? 0) && ((if pbd <? hp then hp - pbd + 1 else 1) <=? hp)); cbn [fst snd]; rewrite ?app_nil_r; reflexivity.
+    + rewrite app_nil_r. reflexivity.
 Qed.
 
 (* ---- the serving side ---- *)
@@ -439,30 +435,32 @@ Proof.
   apply serve_heights_ref.
 Qed.
 
-Lemma ath_req L last wait fw h c : snd (a_tick_height hp pbd th L last wait fw) = Some (h, c) -> c <= pbd /\ h <= hp + 1.
+Lemma ath_req L last wait fw h c : snd (a_tick_height hp pbd th hd L last wait fw) = Some (h, c) -> c <= pbd /\ h <= hp + 1.
 Proof.
   unfold a_tick_height. destruct ((th L <? last) && negb (20 <? wait)); cbn [snd]; [discriminate|].
-  destruct (N.ltb_spec (th L) hp); cbn [snd].
+  set (base := N.max _ (th L)).
+  destruct (N.ltb_spec base hp); cbn [snd].
   - intros [= <- <-]. lia.
-  - destruct ((fw =? 0) && _); cbn [snd]; [|discriminate]. intros [= <- <-]. destruct (N.ltb_spec pbd hp); lia.
+  - destruct (hp <=? th L); cbn [snd]; [|discriminate].
+    destruct ((fw =? 0) && _); cbn [snd]; [|discriminate]. intros [= <- <-]. destruct (N.ltb_spec pbd hp); lia.
 Qed.
 
-Lemma Hreach_th L : L0 <= L -> L <= hp -> th L < hp -> L <= th L + pbd + 1.
+Lemma Hhd_th L : L0 <= L -> L <= hp + 1 -> L <= hd L + 1.
 Proof.
-  intros H1 H2 H3. pose proof len_theirs as Hl. unfold th, nd in *.
-  pose proof (Hreach (N.to_nat L - k0) ltac:(lia)) as H. cbn zeta in H. specialize (H H3). lia.
+  intros H1 H2. pose proof len_theirs as Hl. unfold hd, nd.
+  pose proof (Hheld (N.to_nat L - k0) ltac:(lia)) as H. lia.
 Qed.
 
 Notation AInv := (AInv hp L0).
-Notation a_round' := (a_round hp pbd th).
-Notation a_iter' := (a_iter hp pbd th).
+Notation a_round' := (a_round hp pbd th hd).
+Notation a_iter' := (a_iter hp pbd th hd).
 
 (* one iteration of Synchronize *)
 Lemma a_round_AInv a : AInv a -> AInv (a_round' a).
 Proof.
   intros HA. destruct (N.lt_ge_cases hp (aL a)) as [Hd|Hle].
   - rewrite a_round_done by exact Hd. exact HA.
-  - apply (round_spec hp pbd th Hpbd L0 k0_pos Hreach_th a HA Hle).
+  - apply (round_spec hp pbd th hd Hpbd L0 k0_pos Hhd_th a HA Hle).
 Qed.
 
 Definition a_init (s : sync) : astate := mka L0 [] (sy_last s) (sy_wait s) (sy_fwait s).
@@ -534,7 +532,7 @@ Proof.
 Qed.
 
 Lemma tick_ref a : AInv a -> aL a <= hp ->
-  let r := a_tick_height hp pbd th (aL a) (alast a) (await a) (afw a) in
+  let r := a_tick_height hp pbd th hd (aL a) (alast a) (await a) (afw a) in
   tick cfg (conc a) =
   (mksync (nd (aL a)) hp cdp (fst (fst (fst r))) (snd (fst (fst r))) (snd (fst r)) (map ent (a_rot (aq a))) [],
    match aq a with [] => [] | p :: _ => [ReqHeight p 0] end ++
@@ -548,14 +546,14 @@ Proof.
   - assert (Hp : 1 <= p /\ p <= hp) by (destruct HS as (_ & _ & _ & HQ); apply HQ; left; reflexivity).
     change (fst (ent p)) with (hsh p). destruct (N.eqb_spec (hsh p) 0) as [E|_]; [exfalso; apply (hsh_nz p); [lia|exact E]|].
     unfold queue_request. change (snd (ent p)) with p. destruct (N.eqb_spec p 0); [lia|].
-    rewrite (tick_height_ref _ _ L); [|reflexivity|reflexivity].
+    rewrite (tick_height_ref _ _ L); [|reflexivity|reflexivity|reflexivity].
     cbn [set_queue set_last set_fwait sy_node sy_height sy_diff sy_last sy_wait sy_fwait sy_queue sy_buf].
     rewrite map_app. reflexivity.
 Qed.
 
 (* the peer's answers *)
 Lemma answers_ref a : AInv a -> aL a <= hp ->
-  let r := a_tick_height hp pbd th (aL a) (alast a) (await a) (afw a) in
+  let r := a_tick_height hp pbd th hd (aL a) (alast a) (await a) (afw a) in
   flat_map (serve cfg peer) (snd (tick cfg (conc a))) =
   map P (match aq a with [] => [] | p :: _ => [p] end ++ a_window hp (snd r)).
 Proof.
@@ -564,7 +562,7 @@ Proof.
     assert (Hp : 1 <= p /\ p <= hp) by (apply HQ; left; reflexivity).
     cbn [flat_map]. rewrite app_nil_r. rewrite (serve_ref p 0) by lia. cbn [N.to_nat hts].
     destruct (N.leb_spec p hp); [reflexivity|lia].
-  - destruct (snd (a_tick_height hp pbd th (aL a) (alast a) (await a) (afw a))) as [[h c]|] eqn:E; [|reflexivity].
+  - destruct (snd (a_tick_height hp pbd th hd (aL a) (alast a) (await a) (afw a))) as [[h c]|] eqn:E; [|reflexivity].
     apply ath_req in E. cbn [flat_map a_window]. rewrite app_nil_r. apply serve_ref; lia.
 Qed.
 
@@ -579,14 +577,14 @@ Proof.
   intros HA Hparr. unfold round_with.
   destruct (N.lt_ge_cases hp (aL a)) as [Hdn|HL2].
   - (* nothing left to do *)
-    rewrite (a_round_done hp pbd th a Hdn).
+    rewrite (a_round_done hp pbd th hd a Hdn).
     assert (Ht : tick cfg (conc a) = (conc a, [])).
     { unfold tick. cbn [conc sy_diff sy_node]. rewrite (nd_final (aL a) Hdn).
       destruct (N.leb_spec cdp (top_cd (apply_ext' n0 theirs))); [reflexivity|lia]. }
     rewrite Ht in *. cbn [snd flat_map map] in Hparr. apply Permutation_nil in Hparr. subst arr.
     cbn [fst recv_all fold_left]. apply flush_nil. reflexivity.
   - pose proof (answers_ref a HA HL2) as Hans. pose proof (tick_ref a HA HL2) as Ht. cbn zeta in *.
-    set (r := a_tick_height hp pbd th (aL a) (alast a) (await a) (afw a)) in *.
+    set (r := a_tick_height hp pbd th hd (aL a) (alast a) (await a) (afw a)) in *.
     set (ws := a_window hp (snd r)) in *.
     destruct (tick cfg (conc a)) as [s1 reqs]. injection Ht as -> ->. cbn [snd] in Hans, Hparr. cbn [fst].
     rewrite Hans in Hparr. rewrite map_map in Hparr.
@@ -594,7 +592,7 @@ Proof.
     set (f := fun i : N => (P i, now)) in *.
     set (s1 := mksync (nd (aL a)) hp cdp (fst (fst (fst r))) (snd (fst (fst r))) (snd (fst r)) (map ent (a_rot (aq a))) []).
     destruct HA as (HL1 & HS).
-    pose proof (ath_window_bounds hp pbd th Hpbd L0 k0_pos Hreach_th (aL a) (alast a) (await a) (afw a) HL1 HL2) as Hwb.
+    pose proof (ath_window_bounds hp pbd th hd Hpbd L0 k0_pos Hhd_th (aL a) (alast a) (await a) (afw a) HL1 HL2) as Hwb.
     fold r in Hwb. fold ws in Hwb.
     assert (Hulb : forall x, In x ul -> 1 <= x /\ x <= hp).
     { intros x Hx. unfold ul in Hx. apply in_app_or in Hx. destruct Hx as [Hx|Hx]; [|apply Hwb; exact Hx].
@@ -732,7 +730,7 @@ Theorem sync_fork_rounds s :
       srounds cfg genesis_addr team_key peer now (S k) s = s'.
 Proof.
   intros H1 H2 H3 H4.
-  destruct (a_catches_up_stable hp pbd th Hpbd L0 k0_pos Hreach_th (a_init s) (a_init_AInv s)) as (k0' & Hk0).
+  destruct (a_catches_up_stable hp pbd th hd Hpbd L0 k0_pos Hhd_th (a_init s) (a_init_AInv s)) as (k0' & Hk0).
   exists (S k0'). intros now Hpre k Hk. cbn zeta.
   destruct k as [|k]; [lia|].
   rewrite (srounds_init now Hpre s k H1 H2 H3 H4), (srounds_init now Hpre s (S k) H1 H2 H3 H4).
@@ -751,7 +749,7 @@ Theorem sync_fork_prounds s :
       sy_node s' = apply_ext' n0 theirs /\ sy_buf s' = [].
 Proof.
   intros H1 H2 H3 H4.
-  destruct (a_catches_up_stable hp pbd th Hpbd L0 k0_pos Hreach_th (a_init s) (a_init_AInv s)) as (k0' & Hk0).
+  destruct (a_catches_up_stable hp pbd th hd Hpbd L0 k0_pos Hhd_th (a_init s) (a_init_AInv s)) as (k0' & Hk0).
   exists (S k0'). intros now Hpre m s' Hm Hr.
   destruct m as [|m]; [lia|].
   rewrite (prounds_init now Hpre s m s' H1 H2 H3 H4 Hr).
